@@ -1,23 +1,30 @@
 #!/bin/sh
-# tools/seedcheck.sh <Cxx> [extra check args]: confirm a seeded change and run the property's check on it.
+# tools/seedcheck.sh <Cxx> [extra check args]: confirm a seeded change (seeded/Cxx or /tmp/seed/Cxx/out)
+# on a fresh worktree of /repo HEAD and run the property's check on it.
 id="$1"; shift
-w=/tmp/seed/$id
-echo "== $id: demo on changed worktree"; /venv/bin/python $w/out/demo.py $w/repo >/dev/null 2>&1; dc=$?; echo "exit=$dc"
-echo "== demo on unchanged /repo"; /venv/bin/python $w/out/demo.py /repo >/dev/null 2>&1; du=$?; echo "exit=$du"
-echo "== patch applies to /repo HEAD?"; git -C /repo apply --check $w/out/patch.diff && echo yes
-echo "== tests in changed worktree"; tl=$(cd $w/repo && timeout 900 /venv/bin/python -m pytest -q -p no:cacheprovider 2>&1 | tail -1); echo "$tl"
+src=/verif/seeded/$id; [ -f $src/patch.diff ] || src=/tmp/seed/$id/out
+w=/var/tmp/seedrun/$id
+rm -rf $w; mkdir -p /var/tmp/seedrun
+git -C /repo worktree prune
+git -C /repo worktree add -f $w HEAD -q || exit 2
+git -C $w apply $src/patch.diff || { echo "patch does not apply"; git -C /repo worktree remove --force $w; exit 2; }
+echo "== $id: demo on changed worktree"; /venv/bin/python $src/demo.py $w >/dev/null 2>&1; dc=$?; echo "exit=$dc"
+echo "== demo on unchanged /repo"; /venv/bin/python $src/demo.py /repo >/dev/null 2>&1; du=$?; echo "exit=$du"
+echo "== tests in changed worktree"; tl=$(cd $w && timeout 900 /venv/bin/python -m pytest -q -p no:cacheprovider 2>&1 | tail -1); echo "$tl"
 echo "== check on changed worktree"
-out=$(cd /verif && VERIF_REPO=$w/repo timeout 1500 ./check $id "$@" 2>&1 | grep -v "^KNOWN-FINDING" | tail -6); echo "$out"
+out=$(cd /verif && VERIF_REPO=$w timeout 1500 ./check $id "$@" 2>&1 | grep -v "^KNOWN-FINDING" | tail -6); echo "$out"
 mkdir -p /verif/seeded/$id
-cp $w/out/patch.diff $w/out/demo.py /verif/seeded/$id/
-/venv/bin/python - "$id" "$dc" "$du" "$tl" "$out" <<'PY'
-import json,sys
-id,dc,du,tl,out=sys.argv[1:6]
-m=json.load(open(f'/tmp/seed/{id}/out/meta.json'))
+[ "$src" = "/verif/seeded/$id" ] || cp $src/patch.diff $src/demo.py /verif/seeded/$id/
+/venv/bin/python - "$id" "$dc" "$du" "$tl" "$out" "$src" <<'PY'
+import json,sys,os
+id,dc,du,tl,out,src=sys.argv[1:7]
+mp=f'{src}/meta.json'
+m=json.load(open(mp)) if os.path.exists(mp) else {}
 m.update({'property':id,'demo_changed_exit':int(dc),'demo_unchanged_exit':int(du),'tests_with_change':tl,
- 'confirmed_by':'tools/seedcheck.sh: demo.py run on the changed worktree and on unchanged /repo; pytest in the changed worktree; the check run with VERIF_REPO pointing at the changed worktree (equivalent to git apply on /repo, without disturbing concurrent runs)',
+ 'confirmed_by':'tools/seedcheck.sh: patch applied to a fresh worktree of /repo HEAD; demo.py run there (must exit 1) and on unchanged /repo (must exit 0); pytest in the changed worktree; the check run with VERIF_REPO pointing at the changed worktree (same effect as git apply on /repo, without disturbing concurrent runs); worktree removed afterwards',
  'check_output':out.splitlines(),'detected':'VIOLATION' in out,
  'detected_with_failing_input':'VIOLATION' in out and 'no-failing-input-found' not in out.split('VIOLATION',1)[1].splitlines()[0]})
 json.dump(m,open(f'/verif/seeded/{id}/meta.json','w'),indent=1)
 print('detected:',m['detected'],'with input:',m['detected_with_failing_input'])
 PY
+git -C /repo worktree remove --force $w
